@@ -53,8 +53,8 @@ SPEC = Spec(
         "reference), for embedded references with arbitrary provider text one round at a time (C12_embedded_substituted), for nested "
         "references the innermost-first search (C12_nested_innermost_first); multi-round resolution of provider values that contain "
         "references/escapes, and references inside map/list provider values, are tied by the differential and the leftover/sem oracles",
-        "no theorem states that unflatten (flatten m) is lookup-equivalent to m: the stages of `resolve` are related by C12_resolve_ok / "
-        "C12_resolve_plain up to that round trip, which is differential only",
+        "C12_resolve_lookup / C12_unflatten_flatten_lookup assume unique keys in every source map (HNK; what Go maps guarantee) and speak "
+        "about the leaf paths of the merged sources (koanf leaves: non-map values and empty maps)",
         "cycle theorems cover the identical whole-value 1-cycle and every embedded self-reference; longer cycles (A->B->A), cycles through "
         "map/list values: differential + corpus",
     ],
